@@ -57,20 +57,26 @@ func (o *OracleC15) OnOut(n *Node, st *Step, out *Out) {
 		return
 	}
 	prev := n.initTS
-	if int64(clock) < 0 {
-		return // clock before 1970: outside the envelope
-	}
 	if pr.TS <= prev {
 		o.viol(n, "timestamp_not_increasing", "height %d view %d: proposal timestamp %d is not greater than the previous block's %d (clock %d)", p.H, p.V, pr.TS, prev, clock)
 		return
 	}
-	want := prev + inc
-	if tr := clock / inc * inc; tr > want {
-		want = tr
-	}
-	if pr.TS != want {
-		o.viol(n, "timestamp_wrong", "height %d view %d: proposal timestamp %d, expected max(prev %d + inc %d, clock %d truncated) = %d", p.H, p.V, pr.TS, prev, inc, clock, want)
-		return
+	// "... and equal to the clock reading truncated to the configured increment whenever that
+	// is larger": exact where the truncated reading is at least one increment past the previous
+	// timestamp; in the band (prev, prev+inc) either reading of "larger" is accepted; with the
+	// clock not ahead any value above the previous timestamp is (the statement asks no more).
+	tr := clock / inc * inc
+	switch {
+	case tr >= prev+inc:
+		if pr.TS != tr {
+			o.viol(n, "timestamp_wrong", "height %d view %d: proposal timestamp %d, the clock reading %d truncated to the increment %d is %d (previous block %d)", p.H, p.V, pr.TS, clock, inc, tr, prev)
+			return
+		}
+	case tr > prev:
+		if pr.TS != tr && pr.TS != prev+inc {
+			o.viol(n, "timestamp_wrong", "height %d view %d: proposal timestamp %d, expected the truncated clock reading %d or previous + increment %d", p.H, p.V, pr.TS, tr, prev+inc)
+			return
+		}
 	}
 	if clock <= prev {
 		o.s.st.Exercised = true
